@@ -55,6 +55,7 @@ ENUM_ENV = {"ASAN_OPTIONS": "detect_leaks=0:abort_on_error=0:exitcode=99:symboli
             "UBSAN_OPTIONS": "print_stacktrace=0:halt_on_error=1:exitcode=98:symbolize=0"}
 _exe = None
 _bdir = None
+_tier = None
 
 
 # ------------------------------------------------------------------------------------------------
@@ -403,19 +404,40 @@ def _asan_summary(err):
     return " | ".join(out[:6])[:600]
 
 
-def _death_msg(exe, case):
-    """Re-run one case in `single` mode (symbolized) -> (kind, message) or None if it survives."""
-    ca = [int(x) for x in case["ca"]]
-    length = int(case["len"])
-    mah = case["ma"] if length else "-"
-    rc, out, err = cbuild.run(exe, ["single", case["si4"], case["bg"], length, mah, len(ca)] + ca)
-    out = out.decode(errors="replace")
+def _read_progress(path):
+    """-> dict or None: the case the driver was executing when it died, and its counters so far"""
+    try:
+        with open(path, "rb") as f:
+            raw = f.read(struct.calcsize(PROG_FMT))
+        fields = struct.unpack(PROG_FMT, raw)
+    except (OSError, struct.error):
+        return None
+    n = len(KNAMES)
+    if fields[0] != 0xC20C20C20:
+        return None
+    clen = fields[3 + n]
+    return {"valid": fields[1], "idx": fields[2], "cnt": fields[3:3 + n], "len": clen,
+            "si4": fields[4 + n], "bg": fields[5 + n], "ma": fields[-1][:clen]}
+
+
+def _rerun_death(exe, bdir, spec, case):
+    """Re-execute the driver process that died (same spec, allocation and start index - hence the same
+    heap layout and call history) with symbolization.  -> (kind, message) or (None, why)"""
+    prog = os.path.join(bdir, "prog.rerun.%d" % os.getpid())
+    rc, out, err = cbuild.run(exe, ["enum", spec, case["ca_index"], case["start"], prog])
     err = err.decode(errors="replace")
-    if any(l.startswith("{") for l in out.splitlines()):
-        return None, out
+    pr = _read_progress(prog)
+    try:
+        os.unlink(prog)
+    except OSError:
+        pass
+    if rc in (0, 1) and any(l.startswith("{") for l in out.decode(errors="replace").splitlines()):
+        return None, "driver survived"
+    if pr is None or not pr["valid"] or pr["idx"] != case["idx"]:
+        return None, "driver died elsewhere (rc=%s, progress=%r)" % (rc, pr)
     kind = _kind_from_death(rc, err)
     return kind, ("cell allocation %s, bitmap %s (len %d), si4=%s: driver killed (rc=%d) inside %s: %s"
-                  % (_short(ca), mah, length, case["si4"], rc, FUNC, _asan_summary(err)))
+                  % (_short(case["ca"]), case["ma"], case["len"], case["si4"], rc, FUNC, _asan_summary(err)))
 
 
 def _parse_v(line):
@@ -434,11 +456,13 @@ def _check_r(line, ca, res):
     Python reference.  -> (consistent, info)"""
     p = line.split()
     idx, length, mah, si4, bg, rc, n, lst = int(p[1]), int(p[2]), p[3], int(p[4]), int(p[5]), int(p[6]), int(p[7]), p[8]
-    hoppsum, othersum, flagged = int(p[9]), int(p[10]), int(p[11])
+    hoppsum, othersum, touched, flagged = int(p[9]), int(p[10]), int(p[11]), int(p[12])
     ma = b"" if mah == "-" else bytes.fromhex(mah)
     wrc, want = ref_decode(ca, ma)
     got = [] if lst == "-" else [int(x) for x in lst.split(",")]
     ok = (rc == wrc) and (wrc != 0 or (n == len(want) and got == want))
+    if ok and wrc != 0:
+        ok = (n == 0xEE and not touched)        # rejected: hopp_len sentinel, hopping[] and masks untouched
     if ok and wrc == 0:
         if othersum != 0:
             ok = False                  # a bit other than HOPP changed
@@ -522,28 +546,22 @@ def _unit(arg):
                     cov[k] += js[k]
             break
         # the driver died: the progress file tells the case and the counts so far
-        try:
-            with open(prog, "rb") as f:
-                raw = f.read(struct.calcsize(PROG_FMT))
-            fields = struct.unpack(PROG_FMT, raw)
-        except (OSError, struct.error) as e:
-            raise HarnessError("C20 driver died without progress record (rc=%s): %s\n%s" % (rc, e, err[-1500:]))
-        magic, valid, idx = fields[0], fields[1], fields[2]
-        cnt = fields[3:3 + len(KNAMES)]
-        clen, csi4, cbg = fields[3 + len(KNAMES)], fields[4 + len(KNAMES)], fields[5 + len(KNAMES)]
-        cma = fields[-1][:clen]
-        if magic != 0xC20C20C20 or not valid:
-            raise HarnessError("C20 driver died outside a case (rc=%s, spec=%s ca=%d start=%d):\n%s"
-                               % (rc, spec, ca_index, start, err[-2500:]))
+        pr = _read_progress(prog)
+        if pr is None or not pr["valid"]:
+            raise HarnessError("C20 driver died outside a case (rc=%s, spec=%s ca=%d start=%d, progress=%r):\n%s"
+                               % (rc, spec, ca_index, start, pr, err[-2500:]))
+        idx, clen = pr["idx"], pr["len"]
         for i, k in enumerate(KNAMES):
             if k == "max_list_len":
-                cov[k] = max(cov[k], cnt[i])
+                cov[k] = max(cov[k], pr["cnt"][i])
             else:
-                cov[k] += cnt[i]
+                cov[k] += pr["cnt"][i]
         crashes += 1
         kind = _kind_from_death(rc, err)
-        case = {"ca": list(ca), "len": clen, "ma": cma.hex() if clen else "-", "si4": csi4, "bg": cbg}
-        viol.append(("C20:len=%d:%s" % (clen, kind), case, None))      # message made by _death_msg()
+        case = {"ca": list(ca), "len": clen, "ma": pr["ma"].hex() if clen else "-", "si4": pr["si4"], "bg": pr["bg"],
+                "mode": "enum", "tier": _tier, "spec": os.path.basename(spec), "ca_index": ca_index,
+                "start": start, "idx": idx}
+        viol.append(("C20:len=%d:%s" % (clen, kind), case, None))      # message made by _rerun_death()
         start = idx + 1
         if crashes >= MAX_DEATHS_PER_UNIT:
             aborted = 1         # every death is already a recorded violation; do not grind through thousands
@@ -572,10 +590,11 @@ def _short(ca):
 
 
 def run(ctx):
-    global _exe, _bdir
+    global _exe, _bdir, _tier
     b = cbuild.builddir("c20")
     try:
         _bdir = b
+        _tier = ctx.tier
         _exe = build(b)
         items, nbm, cas = write_specs(b, ctx.quick)
         tot = {k: 0 for k in KNAMES}
@@ -594,9 +613,9 @@ def run(ctx):
                     if key in ctx._vkeys:
                         ctx.n_violations += 1
                         continue
-                    kind, msg = _death_msg(_exe, case)
+                    kind, msg = _rerun_death(_exe, b, os.path.join(b, case["spec"]), case)
                     if kind is None or "C20:len=%d:%s" % (case["len"], kind) != key:
-                        raise HarnessError("C20: death of the driver on %r does not reproduce in single mode (%s)" % (case, kind))
+                        raise HarnessError("C20: death of the driver (%s) on %r does not reproduce: %s" % (key, case, msg))
                 ctx.violation(key, case, msg)
             ctx.merge({"samples": r["samples"]})
         c = ctx.cov
@@ -635,16 +654,24 @@ def replay(ctx, case):
         ca = [int(x) for x in case["ca"]]
         length = int(case["len"])
         mah = case["ma"] if length else "-"
+        if case.get("mode") == "enum":
+            # a death: re-execute the very driver process (same enumeration, same start index)
+            write_specs(b, case["tier"] == "quick")
+            spec = os.path.join(b, os.path.basename(case["spec"]))
+            if not os.path.exists(spec):
+                raise HarnessError("C20 replay: unknown spec %r" % case["spec"])
+            kind, msg = _rerun_death(exe, b, spec, case)
+            if kind is not None:
+                ctx.violation("C20:len=%d:%s" % (length, kind), case, msg)
+            return
         rc, out, err = cbuild.run(exe, ["single", case["si4"], case["bg"], length, mah, len(ca)] + ca)
         out = out.decode(errors="replace")
         err = err.decode(errors="replace")
-        flagged = False
         done = False
         res = {"pyref_checked": 0}
         for line in out.splitlines():
             if line.startswith("V "):
                 kind, kv = _parse_v(line)
-                flagged = True
                 ctx.violation("C20:len=%s:%s" % (kv["len"], kind), case,
                               "cell allocation %s, bitmap %s (len %s), si4=%s: %s" % (_short(ca), kv["ma"], kv["len"], kv["si4"], line[2:]))
             elif line.startswith("R "):
@@ -654,8 +681,8 @@ def replay(ctx, case):
             elif line.startswith("{"):
                 done = True
         if not done:
-            kind, msg = _death_msg(exe, case)
-            if kind is not None:
-                ctx.violation("C20:len=%d:%s" % (length, kind), case, msg)
+            ctx.violation("C20:len=%d:%s" % (length, _kind_from_death(rc, err)), case,
+                          "cell allocation %s, bitmap %s (len %d), si4=%s: driver killed (rc=%d) inside %s: %s"
+                          % (_short(ca), mah, length, case["si4"], rc, FUNC, _asan_summary(err)))
     finally:
         cbuild.cleanup(b)
